@@ -377,6 +377,44 @@ theorem pinned_copy_assign_keeps_old_inner :
 theorem fixed_copy_assign_drops_old_inner :
     views (chainFrom (assignBase demoHeap 0 2) 3 (some 0)) = [⟨0, 0, 7⟩] ∧ (assignBase demoHeap 0 2).freed = [1] := by decide
 
+/-! ### recorded finding KF-C12-3: copy assignment from a layer the target owns
+
+  `a = *a.inner_pdu()` (e.g. unwrapping IP-in-IP in place): `PDU::operator=` replaces — and thereby destroys — the
+  inner chain of `a`, which contains the source, and the implicit member-wise assignment of the derived class then
+  reads the destroyed source.  Repairing it needs a user-provided `operator=` in every PDU class (or a changed
+  contract), so the hazard is recorded, excluded from `WellFormedProgram` by the guard, and reproduced on every run. -/
+
+/-- full statement: copy assignment between any two live layers never touches released storage -/
+def CopyAssignAlwaysSafe : Prop :=
+  ∀ (ops : List Op) (a b : Ref) (x y : Nat), resolve (run {} ops) a = some x → resolve (run {} ops) b = some y →
+    (assignSame (run {} ops).heap x y).faults = 0
+
+def aliasProgram : List Op := [.init 2, .new 0 1 1 9, .new 1 1 1 7, .setinner ⟨0, 0⟩ 1]
+
+/-- refuted on a two-layer packet of one class: `*top = *top->inner_pdu()` -/
+theorem copyAssignAlwaysSafe_fails : ¬ CopyAssignAlwaysSafe := by
+  intro h
+  have := h aliasProgram ⟨0, 0⟩ ⟨0, 1⟩ 0 1 (by decide) (by decide)
+  revert this
+  decide
+
+/-- the excluded region, as a decidable predicate on the two references -/
+def SourceOwnedByTarget (a b : Ref) : Prop := a.slot = b.slot ∧ a.depth < b.depth
+
+instance (a b : Ref) : Decidable (SourceOwnedByTarget a b) := by unfold SourceOwnedByTarget; exact inferInstance
+
+/-- outside the excluded region copy assignment is accepted and safe, after every program -/
+theorem copy_assign_safe_partial (ops : List Op) (a b : Ref) (x y : Nat)
+    (hx : resolve (run {} ops) a = some x) (hy : resolve (run {} ops) b = some y) (hex : ¬ SourceOwnedByTarget a b) :
+    ∃ s', step (run {} ops) (.assign a b) = some s' ∧ s'.heap.faults = 0 ∧ ForestInv s' := by
+  have hsome : (step (run {} ops) (.assign a b)).isSome := by
+    unfold SourceOwnedByTarget at hex
+    simp only [step, hx, hy, hex, if_false]
+    split <;> rfl
+  obtain ⟨s', hs'⟩ := Option.isSome_iff_exists.mp hsome
+  obtain ⟨A', _, hr'⟩ := step_rep (model_refines_spec ops) hs'
+  exact ⟨s', hs', hr'.heap.nofault, forest_inv_of_rep hr'⟩
+
 /-! ### non-vacuity -/
 
 def demoProgram : List Op :=
